@@ -924,19 +924,261 @@ Proof.
     cbn. auto.
 Qed.
 
+
+(* ---------------------------------------------------------------------- *)
+(* the healing loop (ChaperoneLoop.heal): induction over the retry budget   *)
+
+(* statistics of one fold_enhanced (through agreement with the plain fold) *)
+Lemma statistics_enhanced : forall (N : num) (O : oracles) (C : config) ctor arg raw st r st' l,
+  fold_enhanced N O C ctor arg raw st = (Ret r, st', l) ->
+  st_total st' = st_total st + 1 /\
+  st_successful st' = st_successful st + (if e_valid r then 1 else 0).
+Proof.
+  intros N O C ctor arg raw st r st' l E.
+  pose proof (fold_agree_proof N O C ctor arg raw st) as HA.
+  destruct (fold O C ctor arg raw st) as [[rp stp] lp] eqn:Ef. rewrite E in HA.
+  destruct HA as [Hag [-> _]]. destruct rp as [p|e]; [|contradiction Hag].
+  cbn in Hag. destruct Hag as [Hv _]. rewrite <- Hv.
+  exact (statistics_proof O C ctor arg raw st p st' lp Ef).
+Qed.
+
+Section Heal.
+Variable N : num.
+Variable O : oracles.
+Variable C : config.
+Variable ctor : list strategy.
+Variable gen : nat -> Z.
+Variable decay : T N.
+
+(* a RefoldingAttempt record as the loop writes it *)
+Definition ra_ok (a : rattempt N) : Prop :=
+  ra_raw a = gen (ra_num a) /\
+  if ra_success a
+  then ra_error a = None /\ ra_conf a = cur_conf N decay (ra_num a)
+  else (exists e, ra_error a = Some e) /\ ra_conf a = lit_0_0 N.
+
+(* a healed result IS the valid fold_enhanced result of some generation k within the
+   retry budget, with its confidence lowered to min(confidence, current) *)
+Definition heal_found (k0 fuel : nat) (h : hres N) (r : eres N) : Prop :=
+  exists k r0 st st' l,
+    (k0 <= k < k0 + fuel)%nat /\
+    fold_enhanced N O C ctor [] (gen k) st = (Ret r0, st', l) /\ e_valid r0 = true /\
+    r = with_conf N r0 (nmin N (e_conf r0) (cur_conf N decay k)) /\
+    h_final h = e_conf r /\ h_tagged h = false /\
+    h_outcome h = match k with Datatypes.O => HValidFirstTry | S _ => HHealed end /\
+    exists atts', h_attempts h = atts' ++ [mkRA N k (gen k) None true (cur_conf N decay k)].
+
+Definition all_failed (l : list (rattempt N)) : Prop := Forall (fun a => ra_success a = false) l.
+
+Lemma heal_loop_spec : forall fuel k st atts h st' ls,
+  heal_loop N O C ctor gen decay fuel k st atts = (Ret h, st', ls) ->
+  Forall ra_ok atts ->
+  Forall ra_ok (h_attempts h) /\
+  match h_folded h with
+  | Some r => heal_found k fuel h r
+  | None => h_outcome h = HDegraded /\ h_final h = lit_0_0 N /\ h_tagged h = true /\
+            (all_failed atts -> all_failed (h_attempts h))
+  end.
+Proof.
+  induction fuel as [|fuel IH]; intros k st atts h st' ls E Hatts; cbn [heal_loop] in E.
+  - inversion E; subst. cbn. split; [exact Hatts|]. repeat split. auto.
+  - destruct (fold_enhanced N O C ctor [] (gen k) st) as [[[r|e] st1] l] eqn:Ef; [|discriminate E].
+    destruct (e_valid r) eqn:Ev.
+    + inversion E; subst. cbn [h_attempts h_folded h_final h_tagged h_outcome]. split.
+      * apply Forall_app. split; [exact Hatts|]. constructor; [|constructor].
+        unfold ra_ok. cbn. auto.
+      * exists k, r, st, st', l. split; [lia|]. split; [exact Ef|]. split; [exact Ev|].
+        split; [reflexivity|]. split; [reflexivity|]. split; [reflexivity|]. split; [reflexivity|].
+        exists atts. reflexivity.
+    + destruct (heal_loop N O C ctor gen decay fuel (S k) st1
+                  (atts ++ [mkRA N k (gen k) (Some match e_error r with Some e => e | None => ErrUnknown end)
+                                 false (lit_0_0 N)])) as [[res st2] ls'] eqn:EL.
+      inversion E; subst.
+      apply IH in EL.
+      * destruct EL as [Ha Hm]. split; [exact Ha|].
+        destruct (h_folded h) as [x|].
+        -- destruct Hm as [k' [r0 [sa [sb [l0 [Hk Hrest]]]]]].
+           exists k', r0, sa, sb, l0. split; [lia | exact Hrest].
+        -- destruct Hm as [H1 [H2 [H3 H4]]]. repeat split; try assumption.
+           intros Hf. apply H4. apply Forall_app. split; [exact Hf|]. constructor; [reflexivity | constructor].
+      * apply Forall_app. split; [exact Hatts|]. constructor; [|constructor].
+        unfold ra_ok. cbn. split; [reflexivity|]. split; [eexists; reflexivity | reflexivity].
+Qed.
+
+Lemma heal_loop_total : forall fuel k st atts,
+  (forall j, callbacks_return O C (gen j)) ->
+  exists h st' ls, heal_loop N O C ctor gen decay fuel k st atts = (Ret h, st', ls).
+Proof.
+  induction fuel as [|fuel IH]; intros k st atts Hc; cbn [heal_loop].
+  - eauto.
+  - destruct (total_proof N O C ctor [] (gen k) st (Hc k)) as [_ [r [st1 [l E]]]]. rewrite E.
+    destruct (e_valid r).
+    + eauto.
+    + destruct (IH (S k) st1 (atts ++ [mkRA N k (gen k) (Some match e_error r with Some e => e | None => ErrUnknown end)
+                                            false (lit_0_0 N)]) Hc) as [h [st2 [ls E2]]].
+      rewrite E2. eauto.
+Qed.
+
+(* result and oracle calls do not depend on the counters of the Chaperone the loop drives *)
+Lemma heal_loop_state_indep : forall fuel k st1 st2 atts,
+  match heal_loop N O C ctor gen decay fuel k st1 atts, heal_loop N O C ctor gen decay fuel k st2 atts with
+  | (r1, _, l1), (r2, _, l2) => r1 = r2 /\ l1 = l2
+  end.
+Proof.
+  induction fuel as [|fuel IH]; intros k st1 st2 atts; cbn [heal_loop].
+  - auto.
+  - destruct (fold_state_indep_proof N O C ctor [] (gen k) st1 st2) as [_ [H1 H2]].
+    destruct (fold_enhanced N O C ctor [] (gen k) st1) as [[r1 s1] l1].
+    destruct (fold_enhanced N O C ctor [] (gen k) st2) as [[r2 s2] l2].
+    cbn in H1, H2. subst r2 l2. destruct r1 as [r|e]; [|auto].
+    destruct (e_valid r); [auto|].
+    specialize (IH (S k) s1 s2 (atts ++ [mkRA N k (gen k) (Some match e_error r with Some e => e | None => ErrUnknown end)
+                                               false (lit_0_0 N)])).
+    destruct (heal_loop N O C ctor gen decay fuel (S k) s1 _) as [[ra sa] la].
+    destruct (heal_loop N O C ctor gen decay fuel (S k) s2 _) as [[rb sb] lb].
+    destruct IH as [-> ->]. auto.
+Qed.
+
+(* counters: one more fold per generation, one more success iff healed *)
+Lemma heal_loop_stats : forall fuel k st atts h st' ls,
+  heal_loop N O C ctor gen decay fuel k st atts = (Ret h, st', ls) ->
+  Z.of_nat (length (h_attempts h)) = Z.of_nat (length atts) + (st_total st' - st_total st) /\
+  st_successful st' = st_successful st + (match h_folded h with Some _ => 1 | None => 0 end) /\
+  (length (h_attempts h) = length atts + length ls)%nat /\ (length ls <= fuel)%nat.
+Proof.
+  induction fuel as [|fuel IH]; intros k st atts h st' ls E; cbn [heal_loop] in E.
+  - inversion E; subst. cbn. repeat split; lia.
+  - destruct (fold_enhanced N O C ctor [] (gen k) st) as [[[r|e] st1] l] eqn:Ef; [|discriminate E].
+    destruct (statistics_enhanced N O C ctor [] (gen k) st r st1 l Ef) as [Ht Hs].
+    destruct (e_valid r) eqn:Ev.
+    + inversion E; subst. cbn [h_attempts h_folded]. rewrite app_length. cbn. repeat split; lia.
+    + destruct (heal_loop N O C ctor gen decay fuel (S k) st1 _) as [[res st2] ls'] eqn:EL.
+      inversion E; subst. apply IH in EL. rewrite app_length in EL. cbn in EL. cbn [length].
+      destruct EL as [Ha [Hb [Hc Hd]]]. repeat split; lia.
+Qed.
+
+End Heal.
+
+Lemma heal_valid_proof :
+  forall (N : num) (O : oracles) (C : config) ctor gen mr decay st h st' ls,
+    heal N O C ctor gen mr decay st = (Ret h, st', ls) ->
+    (forall r, h_folded h = Some r ->
+       h_outcome h <> HDegraded /\ h_tagged h = false /\ e_valid r = true /\ e_error r = None /\
+       exists k s, Z.of_nat k <= mr /\ e_structure r = Some s /\ validated O C (gen k) s /\
+                   (h_outcome h = HValidFirstTry <-> k = 0%nat) /\
+                   exists atts', h_attempts h = atts' ++ [mkRA N k (gen k) None true (cur_conf N decay k)]) /\
+    (h_folded h = None ->
+       h_outcome h = HDegraded /\ h_tagged h = true /\ h_final h = lit_0_0 N /\
+       Forall (fun a => ra_success a = false /\ exists e, ra_error a = Some e) (h_attempts h)).
+Proof.
+  intros N O C ctor gen mr decay st h st' ls E. unfold heal in E.
+  destruct (heal_loop_spec N O C ctor gen decay _ _ _ _ _ _ _ E (Forall_nil _)) as [Hatts Hm].
+  split.
+  - intros r Hr. rewrite Hr in Hm.
+    destruct Hm as [k [r0 [sa [sb [l0 [Hk [Ef [Ev [-> [Hfin [Htag [Hout Hlast]]]]]]]]]]]].
+    pose proof (fold_enhanced_spec N O C (gen k) ctor [] sa) as HS. rewrite Ef in HS. destruct HS as [_ [HS _]].
+    destruct (HS r0 eq_refl) as [[_ [s0 [_ [Hok _]]]] | [atts [-> _]]]; [|discriminate Ev].
+    unfold eres_ok in Hok. rewrite Ev in Hok. destruct Hok as [[i [Hi Hval]] [Herr _]].
+    split; [rewrite Hout; destruct k; discriminate|]. split; [exact Htag|]. split; [exact Ev|]. split; [exact Herr|].
+    exists k, i. split; [lia|]. split; [exact Hi|]. split; [exact Hval|]. split; [|exact Hlast].
+    rewrite Hout. destruct k; split; intros X; try reflexivity; discriminate X.
+  - intros Hn. rewrite Hn in Hm. destruct Hm as [H1 [H2 [H3 H4]]].
+    split; [exact H1|]. split; [exact H3|]. split; [exact H2|].
+    specialize (H4 (Forall_nil _)). unfold all_failed in H4.
+    rewrite Forall_forall in *. intros a Ha. specialize (Hatts a Ha). specialize (H4 a Ha).
+    unfold ra_ok in Hatts. rewrite H4 in Hatts. split; [exact H4 | apply Hatts].
+Qed.
+
+Lemma cur_conf_Q : forall (decay : Q) k,
+  (0 <= cur_conf numQ decay k)%Q /\ ((0 <= decay)%Q -> (cur_conf numQ decay k <= 1)%Q).
+Proof.
+  intros decay k. unfold cur_conf. cbn [nmax nsub nmul of_len lit_0_0 lit_1_0 numQ T].
+  pose proof (of_len_nonneg k) as Hn.
+  destruct (Qle_bool (1 - inject_Z (Z.of_nat k) * decay) 0) eqn:E.
+  - split; [lra|]. intros _. lra.
+  - assert (~ (1 - inject_Z (Z.of_nat k) * decay <= 0)%Q) as Hlt.
+    { intros Hle. apply Qle_bool_iff in Hle. congruence. }
+    split; [lra|]. intros Hd.
+    pose proof (Qmult_le_0_compat _ _ Hn Hd). lra.
+Qed.
+
+Lemma heal_confidence_proof :
+  forall (O : oracles) (C : config) ctor gen mr (decay : Q) st h st' ls,
+    heal numQ O C ctor gen mr decay st = (Ret h, st', ls) ->
+    (forall r, h_folded h = Some r ->
+       (0 <= e_conf r)%Q /\ (e_conf r <= 1)%Q /\
+       ((e_conf r == 1)%Q -> e_strategy r = Some STRICT) /\
+       h_final h = e_conf r /\
+       (forall s, e_strategy r = Some s -> In s (effective ctor []))) /\
+    (h_folded h = None -> (h_final h == 0)%Q) /\
+    Forall (fun a : rattempt numQ => (0 <= ra_conf a)%Q /\ ((0 <= decay)%Q -> (ra_conf a <= 1)%Q)) (h_attempts h).
+Proof.
+  intros O C ctor gen mr decay st h st' ls E. unfold heal in E.
+  destruct (heal_loop_spec numQ O C ctor gen decay _ _ _ _ _ _ _ E (Forall_nil _)) as [Hatts Hm].
+  split; [|split].
+  - intros r Hr. rewrite Hr in Hm.
+    destruct Hm as [k [r0 [sa [sb [l0 [Hk [Ef [Ev [-> [Hfin [Htag [Hout Hlast]]]]]]]]]]]].
+    destruct (confidence_proof O C ctor [] (gen k) sa r0 sb l0 Ef) as [H0 [H1 [Hone Hstrat]]].
+    destruct (cur_conf_Q decay k) as [Hc0 _].
+    cbn [with_conf e_conf e_strategy]. cbn [nmin numQ T] in *.
+    destruct (Qle_bool (e_conf r0) (cur_conf numQ decay k)) eqn:Eb.
+    + split; [exact H0|]. split; [exact H1|]. split; [apply Hone|]. split; [exact Hfin|].
+      intros s Hs. apply (Hstrat s Hs).
+    + assert (~ (e_conf r0 <= cur_conf numQ decay k)%Q) as Hlt.
+      { intros Hle. apply Qle_bool_iff in Hle. congruence. }
+      split; [exact Hc0|]. split; [lra|]. split; [intros X; lra|]. split; [exact Hfin|].
+      intros s Hs. apply (Hstrat s Hs).
+  - intros Hn. rewrite Hn in Hm. destruct Hm as [_ [H2 _]]. rewrite H2. reflexivity.
+  - rewrite Forall_forall in *. intros a Ha. specialize (Hatts a Ha). unfold ra_ok in Hatts.
+    destruct Hatts as [_ Hx]. destruct (ra_success a).
+    + destruct Hx as [_ ->]. apply cur_conf_Q.
+    + destruct Hx as [_ ->]. cbn. split; [lra | intros _; lra].
+Qed.
+
+Lemma heal_total_proof :
+  forall (N : num) (O : oracles) (C : config) ctor gen mr decay st,
+    (forall k, callbacks_return O C (gen k)) ->
+    exists h st' ls, heal N O C ctor gen mr decay st = (Ret h, st', ls).
+Proof. intros. unfold heal. apply heal_loop_total. assumption. Qed.
+
+Lemma heal_statistics_proof :
+  forall (N : num) (O : oracles) (C : config) ctor gen mr decay st h st' ls,
+    heal N O C ctor gen mr decay st = (Ret h, st', ls) ->
+    st_total st' = st_total st + Z.of_nat (length (h_attempts h)) /\
+    st_successful st' = st_successful st + (match h_folded h with Some _ => 1 | None => 0 end) /\
+    length ls = length (h_attempts h) /\ Z.of_nat (length (h_attempts h)) <= Z.max 0 (mr + 1).
+Proof.
+  intros N O C ctor gen mr decay st h st' ls E. unfold heal in E.
+  pose proof (heal_loop_stats N O C ctor gen decay _ _ _ _ _ _ _ E) as [Ha [Hb [Hc Hd]]]. cbn [length] in *.
+  repeat split; lia.
+Qed.
+
+Lemma heal_state_indep_proof :
+  forall (N : num) (O : oracles) (C : config) ctor gen mr decay st1 st2,
+    fst (fst (heal N O C ctor gen mr decay st1)) = fst (fst (heal N O C ctor gen mr decay st2)) /\
+    snd (heal N O C ctor gen mr decay st1) = snd (heal N O C ctor gen mr decay st2).
+Proof.
+  intros. unfold heal.
+  pose proof (heal_loop_state_indep N O C ctor gen decay (Z.to_nat (mr + 1)) 0 st1 st2 []) as H.
+  destruct (heal_loop N O C ctor gen decay (Z.to_nat (mr + 1)) 0 st1 []) as [[r1 s1] l1].
+  destruct (heal_loop N O C ctor gen decay (Z.to_nat (mr + 1)) 0 st2 []) as [[r2 s2] l2].
+  cbn. exact H.
+Qed.
+
 Lemma hstep_reg : forall N B ctor s op, cs_reg (fst (hstep N B ctor s op)) = reg_step (cs_reg s) op.
 Proof.
-  intros N B ctor s op. destruct op as [raw sch arg|raw sch arg|sch co|]; cbn.
+  intros N B ctor s op. destruct op as [raw sch arg|raw sch arg|sch co| |gen sch mr m e]; cbn.
   - destruct (fold _ _ ctor arg raw (cs_stats s)) as [[r st'] l]. reflexivity.
   - destruct (fold_enhanced N _ _ ctor arg raw (cs_stats s)) as [[r st'] l]. reflexivity.
   - reflexivity.
   - reflexivity.
+  - destruct (heal N _ _ ctor gen mr _ (cs_stats s)) as [[r st'] l]. reflexivity.
 Qed.
 
 Lemma hstep_out_indep : forall N B ctor s1 s2 op, cs_reg s1 = cs_reg s2 ->
   snd (hstep N B ctor s1 op) = snd (hstep N B ctor s2 op).
 Proof.
-  intros N B ctor s1 s2 op Hreg. destruct op as [raw sch arg|raw sch arg|sch co|]; cbn; try reflexivity.
+  intros N B ctor s1 s2 op Hreg. destruct op as [raw sch arg|raw sch arg|sch co| |gen sch mr m e]; cbn; try reflexivity.
   - rewrite Hreg.
     destruct (fold_state_indep_proof N (oracles_for B sch (lookup_co (cs_reg s2) sch))
                 (config_for B (lookup_co (cs_reg s2) sch)) ctor arg raw (cs_stats s1) (cs_stats s2)) as [[H1 H2] _].
@@ -948,6 +1190,12 @@ Proof.
                 (config_for B (lookup_co (cs_reg s2) sch)) ctor arg raw (cs_stats s1) (cs_stats s2)) as [_ [H1 H2]].
     destruct (fold_enhanced N _ _ ctor arg raw (cs_stats s1)) as [[r1 st1] l1].
     destruct (fold_enhanced N _ _ ctor arg raw (cs_stats s2)) as [[r2 st2] l2].
+    cbn in *. subst. reflexivity.
+  - rewrite Hreg.
+    destruct (heal_state_indep_proof N (oracles_for B sch (lookup_co (cs_reg s2) sch))
+                (config_for B (lookup_co (cs_reg s2) sch)) ctor gen mr (of_dyadic N m e) (cs_stats s1) (cs_stats s2)) as [H1 H2].
+    destruct (heal N _ _ ctor gen mr _ (cs_stats s1)) as [[r1 st1] l1].
+    destruct (heal N _ _ ctor gen mr _ (cs_stats s2)) as [[r2 st2] l2].
     cbn in *. subst. reflexivity.
 Qed.
 
@@ -973,3 +1221,12 @@ Lemma hstep_is_fold_proof : forall (N : num) (B : base) ctor s raw sch arg,
   hstep N B ctor s (HFoldEnhanced raw sch arg) =
     (let '(r, st', l) := fold_enhanced N O C ctor arg raw (cs_stats s) in (mkCS st' (cs_reg s), OEnh r l)).
 Proof. intros. split; reflexivity. Qed.
+
+(* ... and a heal of a history IS the healing loop over fold_enhanced under the oracles of its schema *)
+Lemma hstep_is_heal_proof : forall (N : num) (B : base) ctor s gen sch mr m e,
+  let co := lookup_co (cs_reg s) sch in
+  let O := oracles_for B sch co in
+  let C := config_for B co in
+  hstep N B ctor s (HHeal gen sch mr m e) =
+    (let '(r, st', ls) := heal N O C ctor gen mr (of_dyadic N m e) (cs_stats s) in (mkCS st' (cs_reg s), OHeal r ls)).
+Proof. intros. reflexivity. Qed.
